@@ -24,6 +24,7 @@ type vfC14Kind struct {
 	Mint   func(m *vfMintCtx)
 	JWKS   func(p *vfIdP) []byte
 	UInfo  func(c map[string]interface{})
+	AZ     func(c map[string]interface{}) // Azure personality: alters the Graph-style profile document
 	AT     func(c map[string]interface{}) // Keycloak personality: alters the claims of the (JWT) access token
 	Need   string                         // must-reject applies only when the ID token lacks this claim (the profile endpoint is its only source)
 }
@@ -162,6 +163,20 @@ func vfC14Kinds() []vfC14Kind {
 			c[k] = nil
 		}
 	}})
+	azk := func(name string, f func(c map[string]interface{})) {
+		ks = append(ks, vfC14Kind{Name: "azure:" + name, On: "userinfo", AZ: f})
+	}
+	azk("othermails-numbers", func(c map[string]interface{}) { c["mail"], c["otherMails"] = nil, []int{1, 2} })
+	azk("othermails-null-entry", func(c map[string]interface{}) { delete(c, "mail"); c["otherMails"] = []interface{}{nil, "x@example.com"} })
+	azk("othermails-string", func(c map[string]interface{}) { delete(c, "mail"); c["otherMails"] = "x@example.com" })
+	azk("othermails-objects", func(c map[string]interface{}) { c["mail"], c["otherMails"] = "", []interface{}{map[string]interface{}{"a": 1}} })
+	azk("mail-list", func(c map[string]interface{}) { c["mail"] = []string{"x@example.com"} })
+	azk("upn-number", func(c map[string]interface{}) { delete(c, "mail"); delete(c, "otherMails"); c["userPrincipalName"] = 7 })
+	azk("document-is-list", func(c map[string]interface{}) {
+		for k := range c {
+			delete(c, k)
+		}
+	})
 	ks = append(ks, vfC14Kind{Name: "userinfo-email-number", On: "userinfo", UInfo: func(c map[string]interface{}) { c["email"] = 42 }})
 	ks = append(ks, vfC14Kind{Name: "userinfo-email-object", On: "userinfo", UInfo: func(c map[string]interface{}) {
 		c["email"] = map[string]interface{}{"x": 1}
@@ -187,7 +202,7 @@ func vfC14(w *vfWorld) {
 	cfg.Store = vfPick(t, "c14.store", []string{"cookie", "redis"})
 	cfg.CookieRefresh, cfg.CookieExpire = 10*time.Minute, 6*time.Hour
 	cfg.Extra = append(cfg.Extra, "--pass-access-token=true", "--set-xauthrequest=true", "--skip-jwt-bearer-tokens=true")
-	flows := []string{"login", "login-profile", "bearer", "refresh", "plain-login", "plain-stale", "refresh-profile", "google-login", "backend-logout", "google-refresh"}
+	flows := []string{"login", "login-profile", "bearer", "refresh", "plain-login", "plain-stale", "refresh-profile", "google-login", "backend-logout", "google-refresh", "azure-login"}
 	flow := flows[t.Choice("c14.flow", len(flows))]
 	if strings.HasPrefix(flow, "plain") {
 		cfg.Provider = "plain"
@@ -200,6 +215,16 @@ func vfC14(w *vfWorld) {
 	if flow == "google-login" || flow == "google-refresh" {
 		cfg.Provider = "google"
 		cfg.Extra = []string{"--pass-access-token=true", "--set-xauthrequest=true"}
+	}
+	az := flow == "azure-login"
+	azVariant, azProfile := "", false
+	if az {
+		// Azure AD flavour: ID token and access token are JWTs taken from the back channel; when neither carries an e-mail
+		// address the Graph-style profile document is its only source (mail / otherMails / userPrincipalName)
+		cfg.Provider = "azure"
+		cfg.Extra = []string{"--pass-access-token=true", "--set-xauthrequest=true"}
+		azVariant = vfPick(t, "c14.az-variant", []string{"mail", "otherMails", "userPrincipalName"})
+		azProfile = t.Prob("c14.az-profile", 750)
 	}
 	// a fifth of the OIDC worlds run the Keycloak flavour of the provider: JWT access tokens carry the roles
 	kc := cfg.Provider == "oidc" && (flow == "login" || flow == "refresh" || flow == "bearer") && t.Prob("c14.keycloak", 200)
@@ -238,6 +263,9 @@ func vfC14(w *vfWorld) {
 			}
 		}
 	}
+	if azProfile {
+		lacks["email"] = true
+	}
 	cs := &vfC14Case{Flow: flow, Provider: cfg.Provider, Store: cfg.Store}
 	_ = kc
 	for c := range lacks {
@@ -261,7 +289,39 @@ func vfC14(w *vfWorld) {
 		}
 		return c
 	}
+	var curAZ func(c map[string]interface{})
+	var curAZHit func(c *vfIdpCall) bool
+	var curAZFired func()
+	if az {
+		idp.UserinfoPost = func(call *vfIdpCall, c map[string]interface{}) {
+			if v, ok := c["email"]; ok {
+				delete(c, "email")
+				switch azVariant {
+				case "mail":
+					c["mail"] = v
+				case "otherMails":
+					c["mail"], c["otherMails"] = nil, []interface{}{v}
+				default:
+					c["userPrincipalName"] = v
+				}
+			}
+			if curAZ != nil && curAZHit(call) {
+				curAZ(c)
+				curAZFired()
+			}
+		}
+	}
 	idp.Mint = func(m *vfMintCtx) {
+		if az && m.Resp != nil {
+			if opaque, ok := m.Resp["access_token"].(string); ok {
+				c := idp.BaseClaims(m.User, "")
+				c["jti"] = opaque
+				delete(c, "email")
+				jwt := idp.SignJWT(c, vfSignOpt{Key: 2})
+				idp.atGrant[jwt], idp.atGen[jwt] = m.Grant, m.Grant.Gen
+				m.Resp["access_token"] = jwt
+			}
+		}
 		if kc && m.Resp != nil {
 			// replace the opaque access token by a signed one (RS256: deterministic signature)
 			if opaque, ok := m.Resp["access_token"].(string); ok {
@@ -307,7 +367,7 @@ func vfC14(w *vfWorld) {
 			idp.RotateKey()
 		}
 		switch flow {
-		case "login", "login-profile", "plain-login", "google-login":
+		case "login", "login-profile", "plain-login", "google-login", "azure-login":
 			lg, _ := b.StartLogin(rep, pp+"/start?rd=%2Fapp", user)
 			pending = lg
 			return lg != nil
@@ -335,7 +395,7 @@ func vfC14(w *vfWorld) {
 	}
 	act := func(b *vfBrowser) *vfResp {
 		switch flow {
-		case "login", "login-profile", "plain-login", "google-login":
+		case "login", "login-profile", "plain-login", "google-login", "azure-login":
 			return b.GET(rep, pending.CallbackTarget(pp))
 		case "bearer":
 			return b.Do(rep, &vfReq{Method: "GET", Target: "/api/x", NoJar: true, Headers: [][2]string{{"Authorization", "Bearer " + bearer}}})
@@ -371,7 +431,7 @@ func vfC14(w *vfWorld) {
 	}
 	okFree := false
 	switch flow {
-	case "login", "login-profile", "plain-login", "google-login":
+	case "login", "login-profile", "plain-login", "google-login", "azure-login":
 		okFree = r0.Status == 302 && vfSessionCookieSet(r0, cfg.CookieName)
 	case "backend-logout":
 		okFree = r0.Status == 302 && r0.Location() == "/bye"
@@ -432,6 +492,9 @@ func vfC14(w *vfWorld) {
 				if kd.AT != nil && !kc {
 					continue // role claims of the access token matter to the Keycloak flavour only
 				}
+				if kd.AZ != nil && !az {
+					continue
+				}
 				label := fmt.Sprintf("%s pos=%d(%s) kind=%s", flow, k, calls[k].Endpoint, kd.Name)
 				b := newBrowser()
 				if !prep(b) {
@@ -456,6 +519,7 @@ func vfC14(w *vfWorld) {
 					}
 				}
 				curAT, curATHit, curATFired = kd.AT, hit, func() { fired = true }
+				curAZ, curAZHit, curAZFired = kd.AZ, hit, func() { fired = true }
 				idp.JWKSOverride = func(c *vfIdpCall) []byte {
 					if hit(c) && kd.JWKS != nil {
 						fired = true
@@ -477,6 +541,7 @@ func vfC14(w *vfWorld) {
 				r := act(b)
 				idp.Plan, curMint, idp.JWKSOverride, idp.Userinfo = nil, nil, nil, nil
 				curAT, curATHit, curATFired = nil, nil, nil
+				curAZ, curAZHit, curAZFired = nil, nil, nil
 				cs.Iterations++
 				if !fired {
 					w.probe("c14:fault-position-not-reached")
@@ -492,6 +557,11 @@ func vfC14(w *vfWorld) {
 					// token renews nothing
 					n := kd0.Name
 					mustReject = !transient && (n == "no-access-token" || (strings.HasPrefix(n, "omit:") && strings.Contains(n, "access_token")))
+				}
+				if az && kd.Mint != nil {
+					// this provider, too, takes the tokens from its back channel unverified (no verifier is configured) and falls
+					// back from an unreadable ID token to the access token: nothing about a token answer's content is promised
+					mustReject = false
 				}
 				if flow == "google-login" && kd.Mint != nil {
 					// this provider takes the ID token from its token endpoint without verifying signature, issuer, audience,
@@ -512,7 +582,7 @@ func vfC14(w *vfWorld) {
 				if mustReject {
 					cs.MustReject++
 					switch flow {
-					case "login", "login-profile", "plain-login", "google-login":
+					case "login", "login-profile", "plain-login", "google-login", "azure-login":
 						if vfSessionCookieSet(r, cfg.CookieName) || r.Status == 302 && r.Location() == "/app" {
 							w.violate("C14", "session-from-bad-response", flow+"/"+kd.Name, "%s: the callback established a session (status %d) from a failed / malformed provider response", label, r.Status)
 						}
@@ -596,7 +666,7 @@ func vfC14(w *vfWorld) {
 	flowSaved := flow
 	if prep(bh) {
 		switch flowSaved {
-		case "login", "login-profile", "plain-login", "google-login":
+		case "login", "login-profile", "plain-login", "google-login", "azure-login":
 			r := act(bh)
 			if !(r.Status == 302 && vfSessionCookieSet(r, cfg.CookieName)) {
 				w.violate("C14", "not-recovered", flow, "after the fault sweep an honest login fails: status %d", r.Status)
